@@ -1,8 +1,10 @@
 import MpsVerif.Drv.Fifo
 import MpsVerif.Drv.Buffer
+import MpsVerif.Drv.Servlet
 
 def main (args : List String) : IO UInt32 := do
   match args with
   | ["fifo"] => Fifo.Drv.main; return 0
   | ["buffer"] => Buffer.Drv.main; return 0
+  | ["servlet"] => Servlet.Drv.main; return 0
   | _ => IO.eprintln s!"usage: drv <model>   (models: fifo)"; return 2
